@@ -2,6 +2,7 @@ package gen
 
 import (
 	"fmt"
+	"math"
 	"strconv"
 	"strings"
 
@@ -242,4 +243,22 @@ func Event() *rapid.Generator[EventSpec] {
 		s.Line = line
 		return s
 	})
+}
+
+// Accepted says whether the documented grammar requires this generated line to be accepted:
+// the value parses (non-set types, not NaN), the rate (if any) is finite and > 0, the name does not normalise to nothing.
+func (s LineSpec) Accepted() bool {
+	if s.Name == "" {
+		return false
+	}
+	if s.HasRate && !(s.Rate > 0 && !math.IsInf(s.Rate, 0)) {
+		return false
+	}
+	if s.Type != gostatsd.SET {
+		v, err := strconv.ParseFloat(s.ValueStr, 64)
+		if err != nil || math.IsNaN(v) {
+			return false
+		}
+	}
+	return true
 }
